@@ -4,8 +4,12 @@ package main
 
 import (
 	"cmp"
+	"fmt"
+	"os"
 	"strconv"
 	"strings"
+	"sync/atomic"
+	"time"
 
 	"github.com/richardwilkes/toolbox/collection/redblack"
 	"verifharness/hx"
@@ -62,7 +66,30 @@ func optStr(v int, ok bool) string {
 	return strconv.Itoa(v)
 }
 
+// opStart is the start time (unix nanoseconds) of the operation in progress, 0 when idle. A broken fix-up can make
+// the real `recolor` loop spin forever (its sibling-nil branch makes no progress); the watchdog turns that into a
+// process death, which the check attributes to the line (`crash:exit3`) instead of waiting for the global timeout.
+var opStart atomic.Int64
+
+const opLimit = 2 * time.Second
+
+func watchdog() {
+	for {
+		time.Sleep(100 * time.Millisecond)
+		if s := opStart.Load(); s != 0 && time.Now().UnixNano()-s > int64(opLimit) {
+			fmt.Fprintln(os.Stderr, "c06 harness: operation did not finish within", opLimit)
+			os.Exit(3)
+		}
+	}
+}
+
 func (a *area) Run(line string) string {
+	opStart.Store(time.Now().UnixNano())
+	defer opStart.Store(0)
+	return a.run(line)
+}
+
+func (a *area) run(line string) string {
 	f := strings.Fields(line)
 	if len(f) == 0 {
 		return "bad-op"
@@ -115,4 +142,7 @@ func (a *area) Run(line string) string {
 	return "bad-op"
 }
 
-func main() { hx.Main(map[string]hx.Area{"rbtree": &area{}}) }
+func main() {
+	go watchdog()
+	hx.Main(map[string]hx.Area{"rbtree": &area{}})
+}
